@@ -1,4 +1,5 @@
 import TruthModel.Lemmas.Abi
+import TruthModel.Props.C12Parts
 /-
 C12 — argument encoding and decoding are inverse for every instruction signature.
 
